@@ -148,3 +148,29 @@ def env_facts(prog):
     checks.append(('fsm-instantiated-with-peering', good and n_inst >= 1, where,
                    '%d instantiation(s) of FSM' % n_inst))
     return {'checks': checks, 'dot_dead': dot_dead}
+
+
+def helper_returns(module):
+    """name -> source of the returned expression, for module-level zero-argument helpers whose body
+    is a single `return <expr>` (after an optional docstring)."""
+    out = {}
+    for name, f in module.functions.items():
+        if f.params:
+            continue
+        body = [b for b in f.node.body if not (isinstance(b, ast.Expr) and isinstance(b.value, ast.Constant))]
+        if len(body) == 1 and isinstance(body[0], ast.Return) and body[0].value is not None:
+            out[name] = src_of(body[0].value)
+    return out
+
+
+def expand_helpers(module, text, depth=3):
+    """Replace calls `helper()` of trivial module-level helpers by the expression they return."""
+    hr = helper_returns(module)
+    for _ in range(depth):
+        new = text
+        for name, expr in hr.items():
+            new = new.replace('%s()' % name, expr)
+        if new == text:
+            break
+        text = new
+    return text
